@@ -187,11 +187,13 @@ namespace foonathan
                     if (!mem)
                     {
                         // reserve more then the default capacity if that didn't work either
+                        // reserve whole nodes: the array takes ceil(count * node_size / pool.node_size()) of them
+                        auto no_nodes = (count * node_size + pool.node_size() - 1) / pool.node_size();
+                        auto needed   = no_nodes * pool.node_size();
                         detail::check_allocation_size<bad_array_size>(
-                            count * node_size,
-                            [&] { return next_capacity() - pool.alignment() + 1; }, info());
+                            needed, [&] { return next_capacity() - pool.alignment() + 1; }, info());
 
-                        block = reserve_memory(pool, count * node_size);
+                        block = reserve_memory(pool, needed);
                         pool.insert(block.memory, block.size);
 
                         mem = pool.allocate(count * node_size);
